@@ -97,9 +97,9 @@ func init() {
 			"distinct_nontrivial counts distinct (entity-kind counts, universe sizes, association count, zone) signatures of messages with at least one entity",
 		Cases: func(tier string) int {
 			if tier == "thorough" {
-				return 120000
+				return 120000 + len(rtSizeCases(tier))
 			}
-			return 20000
+			return 20000 + len(rtSizeCases(tier))
 		},
 		Run: runC02,
 		Assumptions: []string{
@@ -112,7 +112,14 @@ func init() {
 
 func runC02(c *core.Ctx) {
 	r := c.R
-	f := rgen.GenFeed(r, rgen.Opts{MaxTrips: 5, MaxVehs: 4, MaxAlerts: 3, MaxIDLess: 3, PassThroughSelectorsOnly: true})
+	opts := rgen.Opts{MaxTrips: 5, MaxVehs: 4, MaxAlerts: 3, MaxIDLess: 3, PassThroughSelectorsOnly: true}
+	sized := false
+	if sc := rtSizeCases(c.Tier); c.Index < len(sc) {
+		opts, sized = sc[c.Index].opts, true
+		c.Feature("size-sweep")
+		c.Shape("size-sweep " + sc[c.Index].name)
+	}
+	f := rgen.GenFeed(r, opts)
 	nExt := addUnrelatedNyctData(r, f.Msg)
 	if nExt > 0 {
 		c.Feature("unrelated-nyct-extension-data")
@@ -124,6 +131,9 @@ func runC02(c *core.Ctx) {
 	nz := 4
 	if c.Thorough() {
 		nz = 8
+	}
+	if sized {
+		nz = 2
 	}
 	perm := r.Perm(len(c02Zones))
 	for _, zi := range perm[:nz] {
